@@ -136,13 +136,17 @@ func c17Systematic(tier string) []*Case {
 			out = append(out, cs)
 		}
 	}
-	// ক্লক() at the bottom of the deepest legal recursion (and one level above)
-	for _, depth := range []int{49999, 49998, 20000} {
+	// ক্লক() at the bottom of a deep recursion: wherever plain recursion of that depth is
+	// allowed (the limit itself is not fixed by any property), reading the clock there is too
+	for _, depth := range []int{2000, 19999, 49999} {
+		plain := lines(fmt.Sprintf("%s down(n) { %s (n > 0) { %s down(n - 1); } %s 7; }", KwFun, KwIf, KwReturn, KwReturn), fmt.Sprintf("%s down(%d);", KwPrint, depth))
 		p := lines(fmt.Sprintf("%s down(n) { %s (n > 0) { %s down(n - 1); } %s %s(); }", KwFun, KwIf, KwReturn, KwReturn, FnClock), fmt.Sprintf("%s down(%d);", KwPrint, depth))
+		c0 := scriptCfg(plain, "")
+		c0.Budget = 60000000
 		c := scriptCfg(p, "")
 		c.Budget = 60000000
 		c.ClockStartMs = 1_727_000_000_000
-		cs := &Case{Prop: "C17", Kind: "clock", Sig: fmt.Sprintf("deep:%d", depth), Program: p, Runs: []Run{{Role: "fresh-process:clock", Cfg: c}}}
+		cs := &Case{Prop: "C17", Kind: "clock-deep", Sig: fmt.Sprintf("deep:%d", depth), Program: p, Runs: []Run{{Role: "fresh-process:clock", Cfg: c}, {Role: "fresh-process:plain", Cfg: c0}}}
 		cs.Aux = &Aux{C17: &C17Expect{PrintOrder: []int{0}, Calls: 1}}
 		out = append(out, cs)
 	}
@@ -186,6 +190,13 @@ func c17Eval(cs *Case, ctx *EvalCtx) []Violation {
 	}
 	if o.Res.Budget {
 		add("no-termination", "step budget exceeded")
+		return vs
+	}
+	if cs.Kind == "clock-deep" && (obs[1].ExitStatus() != 0 || obs[1].Stdout != "7\n") {
+		// plain recursion of this depth is not allowed on this tree: nothing to demand
+		if ctx.Stats != nil {
+			ctx.Stats.Count("info.recursion_depth_not_allowed_"+cs.Sig, 1)
+		}
 		return vs
 	}
 	if ex.Arity {
